@@ -17,6 +17,7 @@ import (
 	"fmt"
 	"io"
 	"log"
+	"net"
 	"os"
 	"strings"
 	"time"
@@ -129,6 +130,20 @@ func childOneC14(tcp bool, flow string, ctrl, data []byte) string {
 		if err := env.listenAccept(); err != nil {
 			return "accept-failed:" + err.Error()
 		}
+	case "listening":
+		// Listen() is active and an Accept is waiting, but no connection has been reported yet
+		var ln net.Listener
+		var err error
+		if hang, pv := c14Watch1(c14Watch, func() { ln, err = env.tnc.Listen() }); hang || pv != nil || err != nil {
+			return fmt.Sprintf("listen-failed:%v,%v,%v", hang, pv, err)
+		}
+		time.Sleep(20 * time.Millisecond)
+		go func() {
+			if c, err := ln.Accept(); err == nil && c != nil {
+				env.conn = c
+			}
+		}()
+		time.Sleep(5 * time.Millisecond)
 	}
 	if len(ctrl) > 0 {
 		env.sim.sendRaw(false, ctrl)
